@@ -5,13 +5,20 @@ package main
 // (every non-test Go file of both modules; `export_verif*.go` hooks excluded).  Props/CliArgv.lean states the expected
 // census as an obligation: a flag registered with a shorthand (`…VarP`), an `Args:` validator, `TraverseChildren`,
 // `DisableFlagParsing`, `SetInterspersed`, a normalisation function, `NoOptDefVal`, prefix matching … changes a count.
+// Plus `flagDefs`: one row per flag-defining call (go/ast): defining function, Flags() / PersistentFlags(), name, shorthand,
+// kind, NoOptDefVal — Props/CliArgv.lean (C01/C06/C12_argv_flag_defs, …_flag_kinds) holds the trees of Model/ArgvTrees.lean and the
+// type columns of the command-line models against them.
 
 import (
 	"fmt"
+	"go/ast"
+	"go/parser"
+	"go/token"
 	"os"
 	"path/filepath"
 	"regexp"
 	"sort"
+	"strconv"
 	"strings"
 )
 
@@ -107,5 +114,305 @@ func extractArgvFlags(repo string, w *leanWriter) error {
 	}
 	w.Line("/-- (setting, number of places in the non-test sources that import cobra / pflag) -/")
 	w.Line("def settings : List (String × Nat) := [%s]", strings.Join(rows, ", "))
+	defs, err := argvFlagDefs(repo, files)
+	if err != nil {
+		return err
+	}
+	if len(defs) == 0 {
+		return fmt.Errorf("no flag definition found")
+	}
+	var drows []string
+	for _, d := range defs {
+		drows = append(drows, fmt.Sprintf("(%q, %q, %q, %q, %q, %q)", d.fn, d.scope, d.name, d.short, d.kind, d.noOpt))
+	}
+	w.Line("/-- One row per flag DEFINITION in the non-test sources (go/ast; hooks `export_verif*.go` excluded), in source order per")
+	w.Line("    function: (defining function `<package dir>.[<receiver>.]<func>` — a same-package helper's definitions (not a constructor's) are ALSO listed under")
+	w.Line("    each function that calls the helper —, `local` = through `.Flags()` / `persistent` = through `.PersistentFlags()`,")
+	w.Line("    flag name, shorthand (the `…P` variants' argument; \"\" otherwise), kind (pflag's method stem: Bool, String, Uint64, …;")
+	w.Line("    `Go:<type>` for `AddGoFlag` of a flag.Flag whose Value is a `<type>`), NoOptDefVal as pflag sets it at definition:")
+	w.Line("    \"true\" for Bool and for a Go flag type with an `IsBoolFlag` method, \"\" otherwise). -/")
+	w.Line("def flagDefs : List (String × String × String × String × String × String) :=\n  [%s]", strings.Join(drows, ",\n   "))
 	return nil
+}
+
+type argvFlagDef struct{ fn, scope, name, short, kind, noOpt string }
+
+func argvReturnsCommand(fd *ast.FuncDecl) bool {
+	if fd.Type.Results == nil {
+		return false
+	}
+	for _, r := range fd.Type.Results.List {
+		if argvTypeName(r.Type) == "cobra.Command" {
+			return true
+		}
+	}
+	return false
+}
+
+var argvDefMethod = regexp.MustCompile(`^(Bool|String|Int|Int8|Int16|Int32|Int64|Uint|Uint8|Uint16|Uint32|Uint64|Float32|Float64|Duration|BytesHex|BytesBase64|` +
+	`StringSlice|StringArray|StringToString|StringToInt|StringToInt64|IntSlice|Int32Slice|Int64Slice|UintSlice|BoolSlice|DurationSlice|Float32Slice|Float64Slice|` +
+	`Count|IP|IPSlice|IPMask|IPNet)?(Var)?(P)?$`)
+
+func argvTypeName(e ast.Expr) string {
+	switch t := e.(type) {
+	case *ast.UnaryExpr:
+		return argvTypeName(t.X)
+	case *ast.CompositeLit:
+		return argvTypeName(t.Type)
+	case *ast.StarExpr:
+		return argvTypeName(t.X)
+	case *ast.Ident:
+		return t.Name
+	case *ast.SelectorExpr:
+		return argvTypeName(t.X) + "." + t.Sel.Name
+	case *ast.CallExpr:
+		return argvTypeName(t.Fun) + "()"
+	}
+	return "?"
+}
+
+func argvStrLit(e ast.Expr) string {
+	if b, ok := e.(*ast.BasicLit); ok && b.Kind == token.STRING {
+		if v, err := strconv.Unquote(b.Value); err == nil {
+			return v
+		}
+	}
+	return "<expr:" + argvTypeName(e) + ">"
+}
+
+// argvLocalType: the type of `id := &T{…}` in body.
+func argvLocalType(body *ast.BlockStmt, id string) string {
+	typ := "?"
+	ast.Inspect(body, func(n ast.Node) bool {
+		if as, ok := n.(*ast.AssignStmt); ok && len(as.Lhs) == 1 && len(as.Rhs) == 1 {
+			if l, ok := as.Lhs[0].(*ast.Ident); ok && l.Name == id && typ == "?" {
+				typ = argvTypeName(as.Rhs[0])
+			}
+		}
+		return true
+	})
+	return typ
+}
+
+// argvGoFlag reads `&flag.Flag{Name: …, Value: &T{…}}` (or `Value: v` with `v := &T{…}` in body): (name expression, type of
+// Value).
+func argvGoFlag(e ast.Expr, body *ast.BlockStmt) (name ast.Expr, typ string, ok bool) {
+	if u, isU := e.(*ast.UnaryExpr); isU {
+		e = u.X
+	}
+	cl, isCl := e.(*ast.CompositeLit)
+	if !isCl || argvTypeName(cl.Type) != "flag.Flag" {
+		return nil, "", false
+	}
+	for _, el := range cl.Elts {
+		kv, isKv := el.(*ast.KeyValueExpr)
+		if !isKv {
+			continue
+		}
+		switch argvTypeName(kv.Key) {
+		case "Name":
+			name = kv.Value
+		case "Value":
+			if id, isId := kv.Value.(*ast.Ident); isId && body != nil {
+				typ = argvLocalType(body, id.Name)
+			} else {
+				typ = argvTypeName(kv.Value)
+			}
+		}
+	}
+	return name, typ, name != nil
+}
+
+// argvFlagDefs walks every function of the given files.
+func argvFlagDefs(repo string, files []string) ([]argvFlagDef, error) {
+	fset := token.NewFileSet()
+	type fnInfo struct {
+		name  string
+		pkg   string
+		decl  *ast.FuncDecl
+		order int
+	}
+	var fns []*fnInfo
+	byPkgName := map[string]*fnInfo{} // plain functions: pkg + "." + name
+	boolTypes := map[string]bool{}    // pkg + "." + type with an IsBoolFlag method
+	for _, f := range files {
+		b, err := os.ReadFile(f)
+		if err != nil {
+			return nil, err
+		}
+		src := string(b)
+		if !strings.Contains(src, "spf13/cobra") && !strings.Contains(src, "spf13/pflag") {
+			continue
+		}
+		af, err := parser.ParseFile(fset, f, b, 0)
+		if err != nil {
+			return nil, err
+		}
+		rel, _ := filepath.Rel(repo, filepath.Dir(f))
+		rel = filepath.ToSlash(rel)
+		for _, d := range af.Decls {
+			fd, ok := d.(*ast.FuncDecl)
+			if !ok || fd.Body == nil {
+				continue
+			}
+			name := fd.Name.Name
+			if fd.Recv != nil && len(fd.Recv.List) == 1 {
+				rt := argvTypeName(fd.Recv.List[0].Type)
+				if name == "IsBoolFlag" {
+					boolTypes[rel+"."+rt] = true
+				}
+				name = rt + "." + name
+			}
+			fi := &fnInfo{name: rel + "." + name, pkg: rel, decl: fd, order: len(fns)}
+			fns = append(fns, fi)
+			if fd.Recv == nil {
+				byPkgName[rel+"."+fd.Name.Name] = fi
+			}
+		}
+	}
+	noOptOf := func(pkg, kind string) string {
+		if kind == "Bool" || (strings.HasPrefix(kind, "Go:") && boolTypes[pkg+"."+strings.TrimPrefix(kind, "Go:")]) {
+			return "true"
+		}
+		return ""
+	}
+	direct := map[string][]argvFlagDef{}
+	callees := map[string][]string{}
+	for _, fi := range fns {
+		alias := map[string]string{}
+		scopeOf := func(x ast.Expr) string {
+			switch t := x.(type) {
+			case *ast.CallExpr:
+				if s, ok := t.Fun.(*ast.SelectorExpr); ok && len(t.Args) == 0 {
+					switch s.Sel.Name {
+					case "Flags", "LocalFlags", "LocalNonPersistentFlags":
+						return "local"
+					case "PersistentFlags":
+						return "persistent"
+					}
+				}
+			case *ast.Ident:
+				return alias[t.Name]
+			}
+			return ""
+		}
+		var ferr error
+		ast.Inspect(fi.decl.Body, func(n ast.Node) bool {
+			switch t := n.(type) {
+			case *ast.AssignStmt:
+				if len(t.Lhs) == 1 && len(t.Rhs) == 1 {
+					if id, ok := t.Lhs[0].(*ast.Ident); ok {
+						if sc := scopeOf(t.Rhs[0]); sc != "" {
+							alias[id.Name] = sc
+						}
+					}
+				}
+			case *ast.CallExpr:
+				if id, ok := t.Fun.(*ast.Ident); ok {
+					// a helper that defines flags on the command it is GIVEN; a constructor (result *cobra.Command) defines them on
+					// the command it makes, and is listed on its own
+					if h, known := byPkgName[fi.pkg+"."+id.Name]; known && !argvReturnsCommand(h.decl) {
+						callees[fi.name] = append(callees[fi.name], fi.pkg+"."+id.Name)
+					}
+					return true
+				}
+				sel, ok := t.Fun.(*ast.SelectorExpr)
+				if !ok {
+					return true
+				}
+				sc := scopeOf(sel.X)
+				if sc == "" {
+					return true
+				}
+				m := sel.Sel.Name
+				if m == "AddGoFlag" && len(t.Args) == 1 {
+					arg := t.Args[0]
+					var nameE ast.Expr
+					var typ string
+					if ne, ty, ok := argvGoFlag(arg, fi.decl.Body); ok {
+						nameE, typ = ne, ty
+					} else if ce, isCall := arg.(*ast.CallExpr); isCall {
+						// a same-package helper returning the flag.Flag: its Name is one of its parameters
+						if id, isId := ce.Fun.(*ast.Ident); isId {
+							if h := byPkgName[fi.pkg+"."+id.Name]; h != nil {
+								ast.Inspect(h.decl.Body, func(hn ast.Node) bool {
+									if e, isE := hn.(ast.Expr); isE {
+										if ne, ty, ok := argvGoFlag(e, h.decl.Body); ok && nameE == nil {
+											typ = ty
+											if pid, isP := ne.(*ast.Ident); isP {
+												k := 0
+												for _, fld := range h.decl.Type.Params.List {
+													for _, pn := range fld.Names {
+														if pn.Name == pid.Name && k < len(ce.Args) {
+															nameE = ce.Args[k]
+														}
+														k++
+													}
+												}
+											} else {
+												nameE = ne
+											}
+										}
+									}
+									return true
+								})
+							}
+						}
+					}
+					if nameE == nil {
+						ferr = fmt.Errorf("%s: AddGoFlag with an argument the extractor cannot read at %s", fi.name, fset.Position(t.Pos()))
+						return true
+					}
+					kind := "Go:" + typ
+					direct[fi.name] = append(direct[fi.name], argvFlagDef{fi.name, sc, argvStrLit(nameE), "", kind, noOptOf(fi.pkg, kind)})
+					return true
+				}
+				mm := argvDefMethod.FindStringSubmatch(m)
+				if mm == nil || (mm[1] == "" && mm[2] == "") {
+					return true
+				}
+				kind, isVar, isP := mm[1], mm[2] != "", mm[3] != ""
+				ai := 0
+				if isVar {
+					if kind == "" && len(t.Args) > 0 {
+						kind = "Var:" + argvTypeName(t.Args[0])
+					}
+					ai = 1
+				}
+				if len(t.Args) <= ai {
+					return true
+				}
+				name := argvStrLit(t.Args[ai])
+				short := ""
+				if isP {
+					if len(t.Args) <= ai+1 {
+						return true
+					}
+					short = argvStrLit(t.Args[ai+1])
+				}
+				direct[fi.name] = append(direct[fi.name], argvFlagDef{fi.name, sc, name, short, kind, noOptOf(fi.pkg, kind)})
+			}
+			return true
+		})
+		if ferr != nil {
+			return nil, ferr
+		}
+	}
+	var out []argvFlagDef
+	for _, fi := range fns {
+		out = append(out, direct[fi.name]...)
+		seen := map[string]bool{}
+		for _, c := range callees[fi.name] {
+			if seen[c] || c == fi.name {
+				continue
+			}
+			seen[c] = true
+			for _, d := range direct[c] {
+				d.fn = fi.name
+				out = append(out, d)
+			}
+		}
+	}
+	sort.SliceStable(out, func(a, b int) bool { return out[a].fn < out[b].fn })
+	return out, nil
 }
